@@ -193,6 +193,9 @@ def configs(tier, seed):
     for wrap in (0, 1, 2):
         for how in ("if", "enable"):
             out.append(dict(family="condwrap", wrap=wrap, how=how))
+    for how in ("plain", "if", "enable"):
+        for conn in (False, True):
+            out.append(dict(family="nested2", how=how, connect=conn))
     if tier == "quick":
         for nw, nr in ((1, 1), (2, 1), (1, 2), (2, 2)):
             for ex in (0, 1, 2):
@@ -400,9 +403,96 @@ def _run_condwrap(cfg, ctx):
               z3.Implies(B("w.run"), z3.And(o.sig("got_r") == o.sig("arg_w"), o.sig("got_w") == o.sig("arg_r"))), u)
 
 
+def _make_nested2(cfg):
+    """meth ~ outer ~ inner: a method called (conditionally) by a transaction contains a nested transaction related by
+    simultaneous(), which contains another one; optionally the innermost calls Connect.write whose read side is called by an
+    independent reader transaction."""
+    from amaranth import Elaboratable, Signal
+    from transactron import TModule, Transaction, Method, def_method
+    from transactron.lib import Connect
+
+    class D(Elaboratable):
+        def __init__(self):
+            self.en, self.req, self.req_r = Signal(name="en"), Signal(name="req"), Signal(name="req_r")
+            self.obs = {n: Signal(name="o_" + n) for n in ("meth", "outer", "inner", "target", "w", "r", "caller")}
+            self.c = Connect([("d", 2)]) if cfg["connect"] else None
+
+        def elaborate(self, platform):
+            m = TModule()
+            meth, target = Method(name="meth"), Method(name="target")
+            if self.c is not None:
+                m.submodules.c = self.c
+
+            @def_method(m, target)
+            def _():
+                m.d.comb += self.obs["target"].eq(1)
+
+            @def_method(m, meth)
+            def _():
+                with Transaction(name="outer").body(m) as outer:
+                    with Transaction(name="inner").body(m) as inner:
+                        target(m)
+                        if self.c is not None:
+                            self.c.write(m, d=1)
+                    outer.simultaneous(inner)
+                meth.simultaneous(outer)
+                m.d.top_comb += self.obs["outer"].eq(outer.run)
+                m.d.top_comb += self.obs["inner"].eq(inner.run)
+
+            with Transaction(name="caller").body(m, ready=self.req):
+                m.d.comb += self.obs["caller"].eq(1)
+                if cfg["how"] == "if":
+                    with m.If(self.en):
+                        meth(m)
+                elif cfg["how"] == "enable":
+                    meth(m, enable_call=self.en)
+                else:
+                    meth(m)
+            if self.c is not None:
+                with Transaction(name="reader").body(m, ready=self.req_r):
+                    self.c.read(m)
+                m.d.top_comb += self.obs["w"].eq(self.c.write.run)
+                m.d.top_comb += self.obs["r"].eq(self.c.read.run)
+            m.d.top_comb += self.obs["meth"].eq(meth.run)
+            return m
+
+    d = D()
+    inputs = dict(en=d.en, req=d.req)
+    if cfg["connect"]:
+        inputs["req_r"] = d.req_r
+    return Harness(d, {}, inputs=inputs, observe=lambda d: dict(d.obs))
+
+
+def _run_nested2(cfg, ctx):
+    tag = f"nested2 {cfg['how']}" + (" +Connect" if cfg["connect"] else "")
+    try:
+        b = Built(lambda: _make_nested2(cfg))
+    except HarnessError:
+        raise
+    except Exception as e:  # refused by the library: the safe outcome
+        ctx.notes["nested2_rejected_by_library"] = ctx.notes.get("nested2_rejected_by_library", 0) + 1
+        ctx._record(f"{tag}: design refused at elaboration ({type(e).__name__}) - accepted outcome", "obligation", "unsat", 0.0)
+        return
+    u = Unroll(b, free_init=True)
+    o = u.cycle()
+    ctx.frames += 1
+    B = lambda n: o.sig(n) == 1
+    ctx.witness(f"{tag}: the innermost body can run", [B("inner")])
+    ctx.prove(f"{tag}: meth and its simultaneous nested transaction 'outer' run in the same cycles", [], B("meth") == B("outer"), u)
+    ctx.prove(f"{tag}: 'outer' and its simultaneous nested transaction 'inner' run in the same cycles", [], B("outer") == B("inner"), u)
+    ctx.prove(f"{tag}: the method called by 'inner' executes exactly when 'inner' runs", [], B("target") == B("inner"), u)
+    if cfg["how"] != "plain":
+        ctx.prove(f"{tag}: nothing of the chain runs while the conditional call is disabled", [], z3.Implies(B("meth"), z3.And(B("caller"), B("en"))), u)
+    if cfg["connect"]:
+        ctx.prove(f"{tag}: Connect.read and Connect.write run in exactly the same cycles", [], B("r") == B("w"), u)
+        ctx.prove(f"{tag}: Connect.write executes exactly when its caller 'inner' runs", [], B("w") == B("inner"), u)
+
+
 def run(cfg, ctx):
     if cfg.get("family") == "condwrap":
         return _run_condwrap(cfg, ctx)
+    if cfg.get("family") == "nested2":
+        return _run_nested2(cfg, ctx)
     simple = cfg["writers"] == 1 and cfg["readers"] == 1 and cfg.get("thirds", 1) == 1
     b = Built(lambda: make(cfg), trace_functions=(ctx.index == 0 or simple and cfg["extra"] == 0))
     ctx.functions = b.functions
@@ -468,3 +558,10 @@ def _canary_connect_no_reverse():
 CANARIES = [("Connect without write.simultaneous(read)", _canary_connect_not_simultaneous),
             ("manager: no transitive joining of simultaneous pairs", _canary_no_transitivity),
             ("Connect drops the reverse-direction data", _canary_connect_no_reverse)]
+
+
+def classify(v):
+    c = v.get("cfg", {})
+    if c.get("family") == "nested2" and c.get("connect") and c.get("how") in ("if", "enable") and "Connect.read and Connect.write" in v.get("name", ""):
+        return "connect-write-in-doubly-nested-transaction-under-conditional-call"
+    return None
